@@ -12,8 +12,12 @@
 #ifndef U
 #define U 2
 #endif
+#ifndef CTOR      /* 0 default constructor, 1 initializer-list constructor with two entries, 2 solver-chosen (native validation) */
+#define CTOR 2
+#endif
+#define MAXCNT(step) ((step) + (CTOR ? 2 : 0))
 #ifdef __CPROVER__
-#define VP_MAXBLK 18
+#define VP_MAXBLK (3 * (K + 1))
 #else
 #define VP_MAXBLK (2 * K + 4)
 #endif
@@ -142,6 +146,7 @@ void harness(void) {
 	}
 	int c, a, b, va, vb; VP_INPUT(c); VP_INPUT(a); VP_INPUT(b); VP_INPUT(va); VP_INPUT(vb);
 	VP_NATIVE_ONLY(if(getenv("VP_RANDOM")) { c = (unsigned)c % 2; a = (unsigned)a % U; b = (unsigned)b % U; if(U < 2 || a == b) c = 0; })
+	if(CTOR < 2) c = CTOR;
 	VP_ASSUME(c >= 0 && c <= 1 && a >= 0 && a < U && b >= 0 && b < U);
 #ifdef __CPROVER__
 	vp_nblk = VP_MAXBLK;
@@ -166,8 +171,9 @@ void harness(void) {
 		 * symbolic size (intractable, DESIGN 2.4 (ii)).  The step is therefore executed under a case split over the reference size; in each case
 		 * the two fields are first ASSERTED to hold the reference values and then overwritten with the same values as constants. */
 		int cnt = 0; for(int u = 0; u < U; u++) cnt += present[u];
-		VP_ASSERT(cnt <= step + 2 && (rcap == 0 || rcap == 10) && (rcap != 0 || cnt == 0), "harness: reference size/capacity outside the case split");
-		for(int cs = 0; cs <= step + 2; cs++) for(int cc = 0; cc <= (cs == 0 ? 10 : 0); cc += 10) if(cnt == cs && rcap == (cs == 0 ? (uint64_t)cc : 10u)) {
+		const uint64_t rc0 = rcap;
+		VP_ASSERT(cnt <= MAXCNT(step) && (rc0 == 0 || rc0 == 10) && (rc0 != 0 || cnt == 0), "harness: reference size/capacity outside the case split");
+		for(int cs = 0; cs <= MAXCNT(step); cs++) for(int cc = 0; cc <= (cs == 0 ? 10 : 0); cc += 10) if(cnt == cs && rc0 == (cs == 0 ? (uint64_t)cc : 10u)) {
 			uint64_t capc = cs == 0 ? (uint64_t)cc : 10u;
 			VP_ASSERT(map.f4 == (uint64_t)cs && map.f3 == capc, "_size / _capacity differ from the reference (size, capacity in {0,10})");
 			map.f4 = (uint64_t)cs; map.f3 = capc;
@@ -183,5 +189,7 @@ void harness(void) {
 	vp_end();
 	VP_OBSERVE(vp_ctor_count * 1000 + vp_dtor_count);
 	VP_WITNESS(nops < K, "K operations executed");
+#if CTOR
 	VP_WITNESS(c == 0, "initializer-list constructor reached");
+#endif
 }
